@@ -16,7 +16,8 @@ package oidc
 
 import (
 	"context"
-	"math/rand"
+	"crypto/rand"
+	"math/big"
 	"time"
 
 	"github.com/redis/go-redis/v9"
@@ -147,9 +148,7 @@ var (
 
 type (
 	// randomGenerator is a session generator that uses random strings.
-	randomGenerator struct {
-		rand *rand.Rand
-	}
+	randomGenerator struct{}
 
 	// staticGenerator is a session generator that uses static strings.
 	staticGenerator struct {
@@ -162,9 +161,7 @@ type (
 
 // NewRandomGenerator creates a new random session generator.
 func NewRandomGenerator() SessionGenerator {
-	return &randomGenerator{
-		rand: rand.New(rand.NewSource(time.Now().UnixNano())),
-	}
+	return &randomGenerator{}
 }
 
 func (r randomGenerator) GenerateSessionID() string {
@@ -185,9 +182,16 @@ func (r randomGenerator) GenerateCodeVerifier() string {
 
 func (r *randomGenerator) generate(n int) string {
 	const charset = "abcdefghijklmnopqrstuvwxyzABCDEFGHIJKLMNOPQRSTUVWXYZ0123456789"
+	// Session IDs, nonces and states must not be guessable: draw every character from the
+	// operating system's CSPRNG (rand.Int samples uniformly, without modulo bias).
 	b := make([]byte, n)
+	max := big.NewInt(int64(len(charset)))
 	for i := range b {
-		b[i] = charset[r.rand.Intn(len(charset))]
+		k, err := rand.Int(rand.Reader, max)
+		if err != nil {
+			panic(err) // the system's entropy source is unavailable: there is no safe way to go on
+		}
+		b[i] = charset[k.Int64()]
 	}
 	return string(b)
 }
